@@ -270,7 +270,19 @@ pub fn run(ctx: &mut Ctx) {
         let strangers: Vec<&Key> = idx[nsign..nsign + 2].iter().map(|&i| &pool[i]).collect();
         let mut e = base.clone();
         let mut hist: Vec<String> = Vec::new();
-        for k in &signers {
+        let batch = case % 5 == 0;
+        if batch {
+            // the batch entry points
+            ctx.count("batch_signing_entry_points");
+            let plain: Vec<&Key> = signers.iter().filter(|k| !k.ssh).cloned().collect();
+            let refs: Vec<&dyn Signer> = plain.iter().map(|k| &k.sk as &dyn Signer).collect();
+            e = e.add_signatures(&refs);
+            let md = SignatureMetadata::new().with_assertion(known_values::NOTE, format!("batch-{}", case));
+            let opts: Vec<(&dyn Signer, Option<SigningOptions>, Option<SignatureMetadata>)> = signers.iter().filter(|k| k.ssh).map(|k| (&k.sk as &dyn Signer, k.options(), if rng.chance(1, 2) { Some(md.clone()) } else { None })).collect();
+            e = e.add_signatures_opt(&opts);
+            hist.push(format!("batch sign {} keys", signers.len()));
+        }
+        for k in signers.iter().filter(|_| !batch) {
             if rng.chance(1, 3) {
                 let md = SignatureMetadata::new().with_assertion(known_values::NOTE, format!("meta-{}", case)).with_assertion("when", case);
                 e = e.add_signature_opt(&k.sk, k.options(), Some(md));
